@@ -255,6 +255,11 @@ func c08Level(ep string) slog.Level {
 // the same statement serves the sequential twin and the concurrent run (same caller frame)
 func c08Call(e *slog.Entry, ep string, msg string, args []any) {
 	switch ep {
+	case "SlogNoAttrs":
+		c08SlogMu.Lock()
+		sl := c08Slog[e]
+		c08SlogMu.Unlock()
+		sl.Info(msg)
 	case "Bridge":
 		slog.NewLogLogger(e, slog.InfoLevel).Print(msg)
 	case "ThruNil":
@@ -712,7 +717,7 @@ func c08SpawnChild(race bool, seed uint64, tier string, safe bool, rounds, only 
 func runC08(r *Run) {
 	r.Coq("Require Import Verif.Model.Base Verif.Model.Attrs Verif.Model.Conc Verif.Corr.C08.", "case", "ok")
 	r.ShardSize = 60
-	r.Rule = "frame case: the call's collected attributes contain a group / Attrs value with >= 2 items (an in-place sort can show); stress round: >= 2 goroutines log concurrently and share a value (the same logger, a shared attribute value or a shared group), half of the rounds after 1-3 blank-line calls (Println() / Print(\"\")) on one more logger; distinct by the full configuration (loggers, formats, destinations, attributes, calls)"
+	r.Rule = "frame case: the call's collected attributes contain a group / Attrs value with >= 2 items (an in-place sort can show); stress round: >= 2 goroutines log concurrently and share a value (the same logger, a shared attribute value or a shared group), one call in eight goes through a log/slog logger derived with With(...) from the round's logger and carries no attributes of its own; half of the rounds after 1-3 blank-line calls (Println() / Print(\"\")) on one more logger; distinct by the full configuration (loggers, formats, destinations, attributes, calls)"
 	snap := slog.VerifSnapshot()
 	resetProcess(snap)
 	defer resetProcess(snap)
